@@ -1566,9 +1566,13 @@ cdef class NNPS(NNPSBase):
         cdef double _eps = 1e-12
         if (fabs(xmax - xmin) < _eps) and (fabs(ymax - ymin) < _eps) \
             and (fabs(zmax - zmin) < _eps):
+            # only along the dimensions of the problem: the cell index along
+            # the others must stay zero.
             xmin -= 0.5; xmax += 0.5
-            ymin -= 0.5; ymax += 0.5
-            zmin -= 0.5; zmax += 0.5
+            if self.dim > 1:
+                ymin -= 0.5; ymax += 0.5
+            if self.dim > 2:
+                zmin -= 0.5; zmax += 0.5
 
         # store the minimum and maximum of physical coordinates
         self.xmin.set_data(np.asarray([xmin, ymin, zmin]))
